@@ -20,6 +20,10 @@ EVENTS = {
     # the same missions flown with a second performance model (same ceiling, fuel flow x 1.12)
     'okA@pm2': ('BOS', 'LAX', '2019-01-01T12:00:00', None, 'ok'),
     'okB@pm2': ('DEN', 'ABQ', '2019-01-31T08:30:00', None, 'ok'),
+    # destination at 20 000 ft: flyable with the shipped model (cruise 34 000 ft), above the cruise level of
+    # a third model with a 25 000 ft ceiling (must be rejected there)
+    'toXMD': ('BOS', 'XMD', '2019-01-01T12:00:00', None, 'ok'),
+    'toXMD@pm3': ('BOS', 'XMD', '2019-01-01T12:00:00', None, 'ValueError'),
     'unknown_airport': ('BOS', 'ZZZ', '2019-01-01T12:00:00', None, 'ValueError:unknown airport'),
     'unknown_origin': ('QQQ', 'LAX', '2019-01-01T12:00:00', None, 'ValueError:unknown airport'),
     'high_airport': ('BOS', 'XHI', '2019-01-01T12:00:00', None, 'ValueError'),
@@ -30,8 +34,9 @@ EVENTS = {
     'wx_outside_domain': ('BOS', 'LAX', '2024-09-01T12:00:00', None, 'ValueError'),
 }
 ALPHABETS = {
-    'plain': ['okA', 'okB', 'okA@pm2', 'okA_mass', 'unknown_airport', 'unknown_origin', 'high_airport', 'mass_out_of_envelope'],
-    'plain-small': ['okA', 'okB', 'okB@pm2', 'unknown_airport', 'high_airport'],
+    'plain': ['okA', 'okB', 'okA@pm2', 'okA_mass', 'toXMD', 'toXMD@pm3', 'unknown_airport', 'unknown_origin', 'high_airport', 'mass_out_of_envelope'],
+    'plain-small': ['okA', 'okB', 'okB@pm2', 'okA_mass', 'unknown_airport', 'high_airport'],
+    'two-models': ['toXMD', 'toXMD@pm3', 'okA', 'okA@pm2'],
     'iter-lhv': ['okC', 'okB', 'okB@pm2', 'unknown_airport'],
     'weather': ['wx_ok', 'wx_missing_file', 'wx_outside_domain', 'unknown_airport'],
     'weather-small': ['wx_ok', 'wx_missing_file', 'wx_outside_domain'],
@@ -62,11 +67,12 @@ def _init():
     env.load_config(overrides=[env.HARNESS_DATA / 'C17_airports'])
     _W['pm'] = env.sample_performance_model()
     _W['pm2'] = _second_model()
+    _W['pm3'] = _second_model(ceiling_ft=25000, scale=1.0)
     ap.airport('BOS')  # bind the airports table while the harness override is active
     _W['fresh'] = {}
 
 
-def _second_model():
+def _second_model(ceiling_ft=None, scale=1.12):
     import tomllib
 
     from AEIC.performance.models import PerformanceModel
@@ -78,7 +84,9 @@ def _second_model():
     fp = d['flight_performance']
     iff = [c.lower() for c in fp['cols']].index('fuel_flow')
     d = dict(d)
-    d['flight_performance'] = {'cols': fp['cols'], 'data': [[v * 1.12 if i == iff else v for i, v in enumerate(r)] for r in fp['data']]}
+    d['flight_performance'] = {'cols': fp['cols'], 'data': [[v * scale if i == iff else v for i, v in enumerate(r)] for r in fp['data']]}
+    if ceiling_ft is not None:
+        d['maximum_altitude_ft'] = ceiling_ft
     return PerformanceModel.from_data(d)
 
 
@@ -114,7 +122,7 @@ def _digest(traj):
 
 def _fly(builder, ev):
     m, mass = _mission(ev)
-    pm = _W['pm2'] if ev.endswith('@pm2') else _W['pm']
+    pm = _W['pm2'] if ev.endswith('@pm2') else _W['pm3'] if ev.endswith('@pm3') else _W['pm']
     try:
         if mass is None:
             t = builder.fly(pm, m)
